@@ -4,7 +4,7 @@
    ids unconstrained), hence in particular for every y-monotone polygon. *)
 From Coq Require Import QArith.
 From LV Require Import Base.Prelude Base.F32 Model.Bezier Model.Winding Model.Monotone Model.MonotoneArea
-                       Proofs.C02_Monotone Proofs.C02_Area.
+                       Proofs.C02_Monotone Proofs.C02_Area Proofs.C02_AdvArea.
 Open Scope Q_scope.
 
 Definition input_ids (first : qpt * Z) (vs : list (qpt * Z * bool)) (last : qpt * Z) : list Z :=
@@ -95,6 +95,28 @@ Theorem C02_flush_area : forall right pts,
   flush_area2 right pts == (if right then - chain_area2 pts else chain_area2 pts).
 Proof. exact flush_area. Qed.
 
+(* ---- the tessellator the fill actually uses (AdvancedMonotoneTessellator): [adv_run_gen step] is adv_run with the
+   basic step it delegates to made a parameter; instantiated with the real step it IS adv_run *)
+Theorem C02_advanced_generic_is_advanced : forall first vs last,
+  adv_run_gen monotone_vertex first vs last = adv_run first vs last.
+Proof. exact adv_run_gen_is_adv_run. Qed.
+
+(* area conservation for ALL sequences: flush_side's fans plus the (un-normalised) basic triangles add up to the
+   polygon's shoelace sum exactly - whatever chains get flushed, whichever way sides_are_close decides *)
+Theorem C02_advanced_area_conserved : forall P first vs last, resolves P first vs last ->
+  sum_area2 P (adv_run_gen monotone_vertex_nat first vs last) == polygon_area2 first vs last.
+Proof. exact adv_nat_conserved. Qed.
+
+Theorem C02_advanced_same_triangles : forall first vs last,
+  Forall2 tri_same_or_swapped (adv_run_gen monotone_vertex_nat first vs last) (adv_run first vs last).
+Proof. exact adv_nat_swapped. Qed.
+
+(* the emitted triangles add up exactly to the polygon when no un-normalised triangle is flipped *)
+Theorem C02_advanced_area_exact : forall P first vs last, resolves P first vs last ->
+  Forall (fun t => tri_area2 P t <= 0) (adv_run_gen monotone_vertex_nat first vs last) ->
+  sum_area2 P (adv_run first vs last) == polygon_area2 first vs last.
+Proof. exact adv_area_exact. Qed.
+
 (* non-vacuity: a non-monotone sequence where the bound is strict, and a monotone one where it is exact *)
 Example C02_example_area :
   let P1 := fun i : Z => match i with 0%Z => (0,0) | 1%Z => (5,1) | 2%Z => (-(3),2) | 4%Z => (2,-(2)) | 5%Z => (-(2),3)
@@ -129,3 +151,7 @@ Print Assumptions C02_basic_same_triangles.
 Print Assumptions C02_basic_area_bound.
 Print Assumptions C02_basic_area_exact.
 Print Assumptions C02_flush_area.
+Print Assumptions C02_advanced_generic_is_advanced.
+Print Assumptions C02_advanced_area_conserved.
+Print Assumptions C02_advanced_same_triangles.
+Print Assumptions C02_advanced_area_exact.
